@@ -6,6 +6,8 @@
 (*   run "B"  seed s again                -> identical outputs             *)
 (*   run "G"  seed s, numpy's and Python's GLOBAL generators seeded        *)
 (*            differently                 -> identical outputs             *)
+(*   run "H"  seed s in another interpreter process with another string   *)
+(*            hash seed                   -> identical outputs             *)
 (*   run "D"  seed s + 1                  -> no linear-parameter draw of   *)
 (*            run A appears again (the randomness DOES come from the given *)
 (*            generator, however child streams are derived from it)        *)
@@ -47,6 +49,7 @@ OnOutput(e) ==
     IF Cardinality(Range(e.lin)) # Len(e.lin) THEN "C10.LinearDrawsNeverRepeated" ELSE "",
     IF st.run = "B" /\ e.hash # e.hashA THEN "C10.EqualSeedsGiveIdenticalOutputs" ELSE "",
     IF st.run = "G" /\ e.hash # e.hashA THEN "C10.OutputIndependentOfGlobalState" ELSE "",
+    IF st.run = "H" /\ e.hash # e.hashA THEN "C10.EqualSeedsGiveIdenticalOutputsInEveryInterpreterProcess" ELSE "",
     IF st.run = "D" /\ Range(e.lin) \cap Range(e.linA) # {} THEN "C10.DrawsComeFromTheGivenGenerator" ELSE "">>
 
 Init == tid \in 1..Len(Tr) /\ l = 1 /\ st = Fresh("none") /\ fails = <<>>
